@@ -118,6 +118,13 @@ Theorem C14_all_paths_filtered_refuted : unfiltered shape_at_writing reviewed_si
 Proof. exact all_paths_filtered_refuted. Qed.
 Print Assumptions C14_all_paths_filtered_refuted.
 
+(* ... and the writers of the state the three rules read (token registry, freeze lists,
+   execution-fee table, allowed-message list, feeprocessing records) are the reviewed ones: a NEW
+   writer breaks this obligation *)
+Theorem C14_state_writers_reviewed : state_writers = reviewed_writers.
+Proof. exact state_writers_reviewed. Qed.
+Print Assumptions C14_state_writers_reviewed.
+
 (* GOVERNANCE of the freeze lists (TokensWhiteBlackChange proposal handler, addTokens): after a
    passed "add" proposal a token is on the list iff it was there or is named -- every named token,
    whatever its position in the proposal's list and whatever was already listed ... *)
